@@ -454,6 +454,7 @@ class Families:
         self.F = F
         self.G = G
         self._pos_ok = None
+        self._number_text = None
         self._stack = None
         self._driver = None
         self._scope = None
@@ -515,6 +516,25 @@ class Families:
             ok, msg = self.lexer_position_writes_ok()
             if ok:
                 return ("lexer-position", "Lexer.position only ever grows by constants <= 16 from 0 (%s): it cannot approach usize::MAX in a feasible run" % msg)
+        return None
+
+    # ---- the plain-text rewriting of numbers (decided by folding over the shapes of to-scientific-string, see props/c07.py) -------------------------
+    def number_text(self, A, s):
+        if not (s.fn.startswith("dmntk_feel_number::number::") or s.fn.startswith("<dmntk_feel_number::number::FeelNumber as ")):
+            return None
+        if not ((s.kind == "call" and re.search(r"(Option|Result)::<>::(unwrap|expect)$", s.what)) or (s.kind == "assert" and s.what == "Overflow:Sub")):
+            return None
+        if self._number_text is None:
+            from props import c07
+            try:
+                self._number_text = c07.shape_fold_verdict(self.F)
+            except Exception as e:      # fail closed
+                self._number_text = (False, set(), "fold raised %s" % e)
+        ok, fns, why = self._number_text
+        base = s.fn.split("::{closure")[0]
+        if ok and base in fns and base not in ("<dmntk_feel_number::number::FeelNumber as core::fmt::Display>::fmt",):
+            return ("to-scientific-string shapes", "folded on all 16 shapes of decQuadToString's output (sign x coefficient x exponent part; digit runs opaque): no unwrap meets None / Err and "
+                    "every subtracted count is one the specification keeps non-negative (n - |f|, n - 1)")
         return None
 
     def is_field(self, A, op, adt_name, field):
@@ -704,7 +724,7 @@ def run_inventory(F, rep, tier, pid, roots, floors, what):
             try:
                 d = g1_panic.discharge(F, A, s)
                 if d is None:
-                    d = fam.lexer_position(A, s) or fam.parser_stack(A, s) or fam.scope_refcell(A, s) or fam.lalr_driver(A, s, driver_ok)
+                    d = fam.lexer_position(A, s) or fam.parser_stack(A, s) or fam.scope_refcell(A, s) or fam.lalr_driver(A, s, driver_ok) or fam.number_text(A, s)
             except Exception as e:   # fail closed
                 d = None
                 rep.note("discharge raised %s at %s" % (e, key))
